@@ -113,7 +113,18 @@ pub const VALID_EXPRS: &[&str] = &[
     "<math><mn>2</mn><mi intent=':silent'>x</mi></math>",
     "<math><mn mathvariant='sans-serif'>2</mn><mo>+</mo><mn>&#x1D7E4;</mn></math>",
     "<math><mi>&#x1D63C;</mi><mo>+</mo><mi>&#x1D655;</mi><mo>=</mo><mn>2</mn><mo>&#x225F;</mo><mn>3</mn><mo>&#x22BB;</mo><mi>y</mi></math>",
+    // what regional variants and per-language definitions override: the three kinds of brackets; unit names given as text
+    "<math><mi>x</mi><mo>(</mo><mi>y</mi><mo>+</mo><mn>1</mn><mo>)</mo><mo>+</mo><mo>[</mo><mi>z</mi><mo>]</mo><mo>&#x2212;</mo><mo>{</mo><mi>w</mi><mo>}</mo></math>",
+    "<math><mn>2</mn><mtext>tsk</mtext><mo>+</mo><mn>2</mn><mtext>cup</mtext><mo>+</mo><mn>3</mn><mtext>kuppi</mtext><mo>+</mo><mn>5</mn><mi mathvariant='normal' intent=':unit'>km</mi><mo>+</mo><mn>1</mn><mtext>B</mtext></math>",
 ];
+
+/// indexes (from the end of VALID_EXPRS) of the two expressions above
+pub fn expr_brackets() -> usize {
+    VALID_EXPRS.len() - 2
+}
+pub fn expr_units() -> usize {
+    VALID_EXPRS.len() - 1
+}
 
 /// First index of the regression section of VALID_EXPRS: the minimised expressions of defects that were found on the
 /// unchanged tree (by generated expressions, other seeds, the thorough tiers) and repaired. They stay in the pool so that
